@@ -70,7 +70,7 @@ def main():
         res["demo_output_tail"] = out[-300:]
         os.remove(os.path.join(wt, demo_dst))
         # 4. pinned suite
-        rc, out = sh("/tmp/seed/baseline.sh %s" % wt, wt)
+        rc, out = sh("%s %s" % (os.path.join(os.path.dirname(src.rstrip("/")), "baseline.sh"), wt), wt)
         res["baseline_140"] = "140/140" in out
         # 5. the checks
         plist = checks.split(",") if checks != "all" else ["C%02d" % k for k in range(1, 21)]
